@@ -44,11 +44,20 @@ Definition c04_roundtrip (T : Z) (ss : list node) : option (list Z) :=
       end
   end.
 
+(** the correspondence domain (the harness refuses anything else, so that a shrinking step cannot
+    ask either side for 2^30 words): at most 2^13 search values in the window, Decode on heights <= 14 *)
+Definition c04_win_ok (T f t : Z) : bool :=
+  let h := Height T in
+  let t0 := shr64 t 32 + 1 in
+  let tt := if t0 >? 2 ^ h then 2 ^ h else t0 in
+  tt - shr64 f 32 <=? 8192.
+Definition c04_dec_ok (T : Z) : bool := Height T <=? 14.
+
 Definition c04_run_allpaths (a : list val) : val :=
   match a with
   | [T; f; t] => match as_z T, as_z f, as_z t with
       | Some T, Some f, Some t =>
-          if c04_T_ok T && c04_u64 f && c04_u64 t then
+          if c04_T_ok T && c04_u64 f && c04_u64 t && c04_win_ok T f t then
             match AllPaths T f t with Some l => vzs l | None => VPanic end
           else VBad
       | _, _, _ => VBad end
@@ -64,7 +73,7 @@ Definition c04_run_decode (a : list val) : val :=
   match a with
   | [T; bm] => match as_z T, as_zs bm with
       | Some T, Some bm =>
-          if c04_T_ok T && words_okb bm then
+          if c04_T_ok T && c04_dec_ok T && words_okb bm then
             match Decode T bm with Some l => vzs l | None => VPanic end
           else VBad
       | _, _ => VBad end
@@ -99,7 +108,7 @@ Definition ops_C04 : list opdef := [
      op_run := fun a => match a with
        | [T; ss] => match as_z T, c04_nodes ss with
            | Some T, Some ss =>
-               if c04_T_ok T && c04_sub_ok T ss then
+               if c04_T_ok T && c04_dec_ok T && c04_sub_ok T ss then
                  match c04_roundtrip T ss with Some l => vzs l | None => VPanic end
                else VBad
            | _, _ => VBad end
